@@ -184,7 +184,7 @@ fn enc_w_hex_odd_digit() {
 /// and decode_hex inverts it (C16)
 fn hex_roundtrip<const L: usize, const L2: usize>() {
     let d: [u8; L] = kani::any();
-    let e = encode_hex(&d);
+    let e = encode(&d, &StreamFilter::ASCIIHexDecode).unwrap();      // public dispatcher -> encode_hex
     assert!(e.len() == L2);
     let mut ea = [0u8; L2];
     let mut i = 0;
@@ -192,7 +192,7 @@ fn hex_roundtrip<const L: usize, const L2: usize>() {
     // independent reference decoder accepts it with the same result
     let want = hex_ref(&ea);
     assert!(matches!(&want, Some((n, w)) if *n == L && same(&w[..L], &d)));
-    let got = okv(decode_hex(&e));
+    let got = okv(decode_hex(&e));      // (the decode dispatcher makes the Kani compiler panic: third-party decoder code)
     assert!(matches!(&got, Some(g) if same(g, &d)));
     std::mem::forget(got); std::mem::forget(e);
 }
@@ -347,7 +347,7 @@ fn enc_a85_dec_total_l4() { a85_dec_total::<4>() }
 /// The real encoder's output must be accepted by the reference decoder and give back the input (C16).
 fn a85_enc_vs_refdec<const N: usize, const L: usize, const O: usize>() {
     let d: [u8; N] = kani::any();
-    let e = encode_85(&d);
+    let e = encode(&d, &StreamFilter::ASCII85Decode).unwrap();       // public dispatcher -> encode_85
     assert!(e.len() <= L && e.len() >= 2);
     let mut ea = [b' '; L];      // right-padded with white-space, which the reference ignores after EOD
     let mut i = 0;
@@ -481,7 +481,7 @@ fn flate_png<const R: usize, const S: usize, const T: usize, const D: usize>(pre
     let mut i = 0; while i < T { data[5 + i] = payload[i]; i += 1; }
     let params = LZWFlateParams { predictor, n_components: colors, bits_per_component: bpc, columns, early_change: 1 };
     let got = okv(flate_decode(&data, &params));
-    let bpp = std::cmp::max(1, (colors * bpc / 8) as usize);
+    let bpp = ((colors * bpc + 7) / 8) as usize;       // bytes per complete pixel, rounded up (PNG specification)
     let want = png_ref::<R, S, T>(&payload, bpp);
     let ok = match &got {
         Some(g) => {
@@ -518,6 +518,13 @@ fn enc_flate_p15_c1_b16_w1() { flate_png::<2, 2, 6, 11>(15, 1, 16, 1) }
 #[kani::proof]
 #[kani::stub(std::fmt::format, nofmt)]
 fn enc_flate_p14_c3_b8_w2_r3() { flate_png::<3, 6, 21, 26>(14, 3, 8, 2) }
+
+#[kani::proof]
+#[kani::stub(std::fmt::format, nofmt)]
+fn enc_flate_p11_c3_b4_w2() { flate_png::<2, 3, 8, 13>(11, 3, 4, 2) }
+#[kani::proof]
+#[kani::stub(std::fmt::format, nofmt)]
+fn enc_flate_p14_c3_b4_w2() { flate_png::<2, 3, 8, 13>(14, 3, 4, 2) }
 
 /// predictor 1 (none): data returned as inflated
 #[kani::proof]
